@@ -90,7 +90,7 @@ M("c01-eval-fresh-clock", ["C01"], CX,
   "                if ctx._current_vm is not None:\n                    vm.host_depth = ctx._current_vm.host_depth\n                return vm.run(bytecode_module)",
   [("C01", "C01-R7", "eval_fn")])
 M("c01-run-restamps", ["C01"], VM,
-  "        if self.start_time is None:\n            self.start_time = time.monotonic()", "        self.start_time = time.monotonic()",
+  "        if self.start_time is None:\n            self.start_time = time.monotonic()\n        else:\n            self._poll_deadline()\n", "        self.start_time = time.monotonic()\n",
   [("C01", "C01-R7", "stamp start_time")])
 M("c02-mem-drops-frames", ["C02"], VM,
   "mem_used = len(self.stack) * 100 + len(self.call_stack) * 200", "mem_used = len(self.stack) * 100",
@@ -637,8 +637,7 @@ T("t-adopt-inline-assignment", ["C01", "C12"], VM,
 TWINS.append(dict(id="t-cached-deadline-kept-coherent", props=["C01", "C12", "C15"], patch="seeded/C01-b/patch.diff", note="seed C01-b plus the missing refresh of the cached deadline wherever start_time is inherited",
                   edits=[(CX, "                    vm.start_time = self._current_vm.start_time\n", "                    vm.start_time = self._current_vm.start_time\n                    vm.deadline = self._current_vm.deadline\n", 1),
                          (CX, "                    vm.start_time = ctx._current_vm.start_time\n", "                    vm.start_time = ctx._current_vm.start_time\n                    vm.deadline = ctx._current_vm.deadline\n", 1),
-                         (CX, "            vm.start_time = self._current_vm.start_time\n            vm.host_depth = self._current_vm.host_depth\n        else:\n            vm.start_time = time.monotonic()\n", "            vm.start_time = self._current_vm.start_time\n            vm.deadline = self._current_vm.deadline\n            vm.host_depth = self._current_vm.host_depth\n        else:\n            vm._start_clock()\n", 1),
-                         (CX, "        vm.start_time = started\n", "        vm.start_time = started\n        if vm.time_limit is not None:\n            vm.deadline = started + vm.time_limit\n", 1)]))
+                         (CX, "            vm.start_time = self._current_vm.start_time\n            vm.host_depth = self._current_vm.host_depth\n            vm._poll_deadline()\n        else:\n            vm.start_time = time.monotonic()\n", "            vm.start_time = self._current_vm.start_time\n            vm.deadline = self._current_vm.deadline\n            vm.host_depth = self._current_vm.host_depth\n            vm._poll_deadline()\n        else:\n            vm._start_clock()\n", 1)]))
 
 # ------------------------------------------------------------------ host-stack budget (fix 094d6a2)
 M("c02-callback-not-counted", ["C02"], VM,
@@ -714,8 +713,8 @@ T("t-c15-bind-copies-cells-first", ["C15", "C05"], VM,
   "            # Copy closure cells\n            if hasattr(func, \"_closure_cells\"):\n                bound_func._closure_cells = func._closure_cells\n            # Copy compiled function reference\n            if hasattr(func, \"_compiled\"):\n                bound_func._compiled = func._compiled\n")
 S("seed-C02-c", ["C02"], "seeded/C02-c/patch.diff", [("C02", "C02-R3c", "host_depth:binding")], note="host-depth counter turned into an int: nested interpreters copy the outermost value")
 M("c02-nested-vm-does-not-adopt-depth", ["C02"], CX,
-  "            vm.start_time = self._current_vm.start_time\n            vm.host_depth = self._current_vm.host_depth\n        else:",
-  "            vm.start_time = self._current_vm.start_time\n        else:",
+  "            vm.start_time = self._current_vm.start_time\n            vm.host_depth = self._current_vm.host_depth\n            vm._poll_deadline()\n        else:",
+  "            vm.start_time = self._current_vm.start_time\n            vm._poll_deadline()\n        else:",
   [("C02", "C02-R3c", "adopts-host_depth")], note="host-driven call path no longer counts its nesting")
 
 ALL_PROPS = ["C%02d" % i for i in range(1, 21)]
@@ -1236,7 +1235,7 @@ M("c04-handler-read-untested", ["C04"], CO,
 M("c04-label-read-untested", ["C04"], CO,
   "            target_label = node.label.name if node.label else None\n", "            target_label = node.label.name\n",
   [("C04", "C04-R17", "node.label.name")], count=2, note="break/continue without a label have no label node")
-S("seed-C01-h", ["C01"], "seeded/C01-h/patch.diff", [("C01", "C01-R2", "_check_limits")], note="nested interpreters add their instruction count to the outer counter: the modulus poll is only sound for steps of one")
+# seed C01-h: obsolete since fix dd9da4c (a nested interpreter reads the clock on entry, so the skipped multiples no longer matter); kept under seeded/ with meta.obsolete
 S("seed-C06-g", ["C06"], "seeded/C06-g/patch.diff", [("C06", "C06-R10", "_compile_expression")], note="-0 folded into the constant pool, which deduplicates with ==: 0 and -0 share a slot")
 S("seed-C13-g", ["C13"], "seeded/C13-g/patch.diff", [("C13", "C13-R12", "_read_string")], note="escape-free string fast path that does not refuse a raw line break (third author, the slip of C13-e/f)")
 S("seed-C14-g", ["C14"], "seeded/C14-g/patch.diff", [("C14", "C14-R1", "_emit|_patch_jump")], note="the 16-bit range check moved to a finishing helper that the arrow compiler does not call")
@@ -1254,3 +1253,21 @@ M("c18-tofixed-nan-before-range", ["C18"], VM,
   [("C18", "C18-R17", "toFixed")], note="NaN.toFixed(101) must throw: the digit count is checked first")
 S("seed-C18-g", ["C18", "C06"], "seeded/C18-g/patch.diff", [("C18", "C18-R18", "_is_odd_integer"), ("C06", "C06-R14", "_is_odd_integer")], note="parity of the exponent through math.fmod(x, 2) == 1: false for every negative odd exponent")
 TP("t-odd-exponent-helper", ALL_PROPS, "selftest/patches/t-odd-exponent-helper.diff", note="the same helper on abs(x) (repaired C18-g)")
+M("c01-run-no-entry-poll", ["C01"], VM,
+  "        else:\n            self._poll_deadline()\n", "",
+  [("C01", "C01-R11", "eval_fn|function_constructor_fn")], note="fix dd9da4c reverted for eval/Function: run() no longer reads the clock for an interpreter that joins an evaluation")
+M("c01-comparator-vm-no-poll", ["C01"], CX,
+  "            vm._poll_deadline()\n", "",
+  [("C01", "C01-R11", "_call_function")], note="fix dd9da4c reverted for host-driven calls (sort comparator)")
+M("c01-entry-poll-counted", ["C01"], VM,
+  "        if self.time_limit and time.monotonic() - self.start_time > self.time_limit:\n            raise TimeLimitError(\"Execution timeout\")\n\n    def _check_limits", "        if self.time_limit and self.instruction_count % 1000 == 0 and time.monotonic() - self.start_time > self.time_limit:\n            raise TimeLimitError(\"Execution timeout\")\n\n    def _check_limits",
+  [("C01", "C01-R11", "clock-read-on-entry")], note="the entry poll made periodic again: a fresh interpreter's counter is 0, so it would read the clock, but only by accident of the modulus; the rule wants a poll no counter guards")
+M("c13-inner-array-stored-raw", ["C13"], PA,
+  "                    element = self._continue_assignment_expression(\n                        self._continue_postfix_expression(array_expr)\n                    )\n                    array_stack[current_depth].append(element)\n", "                    array_stack[current_depth].append(array_expr)\n",
+  [("C13", "C13-R14", "raw")], note="fix reverted: the inner array is appended as soon as it is closed")
+M("c13-inner-array-no-postfix", ["C13"], PA,
+  "                    element = self._continue_assignment_expression(\n                        self._continue_postfix_expression(array_expr)\n                    )\n", "                    element = self._continue_assignment_expression(array_expr)\n",
+  [("C13", "C13-R14", "postfix")], note="[[1][0]] and [[].length]: member access after the inner array")
+M("c13-inner-array-comma-operator", ["C13"], PA,
+  "                    element = self._continue_assignment_expression(\n                        self._continue_postfix_expression(array_expr)\n                    )\n", "                    element = self._continue_parsing_expression(\n                        self._continue_postfix_expression(array_expr)\n                    )\n",
+  [("C13", "C13-R14", "comma")], note="the full continuation applies the comma operator: [[1], 2] would be one element")
